@@ -1,7 +1,11 @@
-//! Scripted stand-in for `rand` 0.8: the harness owns the answer to every `next_u64()`.
-//! Only the surface volute uses is provided (`thread_rng()`, `RngCore`); if volute starts
-//! using more of the rand API this crate stops compiling and the ENV check reports a
-//! machinery failure instead of a verdict.
+//! Scripted stand-in for `rand` 0.8: the harness owns the answer to every `next_u64()` of
+//! `thread_rng()`. The surface volute uses today is `thread_rng()` + `RngCore`; the other
+//! commonly used entry points (`Rng::{gen, gen_bool, gen_range, fill}`, `SeedableRng`,
+//! `rngs::{StdRng, SmallRng}`, `random()`, `prelude`) are provided as well so that plausible
+//! rewrites of `fill_random` still build against the shim. Seedable generators are
+//! deterministic functions of their seed; `from_entropy()` seeds from the scripted stream.
+//! If volute uses something that is not here the ENV build fails and the check reports a
+//! machinery failure for the ENV part instead of a verdict.
 
 use std::cell::RefCell;
 
@@ -9,6 +13,45 @@ pub trait RngCore {
     fn next_u32(&mut self) -> u32;
     fn next_u64(&mut self) -> u64;
     fn fill_bytes(&mut self, dest: &mut [u8]);
+    fn try_fill_bytes(&mut self, dest: &mut [u8]) -> Result<(), Error> {
+        self.fill_bytes(dest);
+        Ok(())
+    }
+}
+
+#[derive(Debug)]
+pub struct Error;
+
+impl std::fmt::Display for Error {
+    fn fmt(&self, f: &mut std::fmt::Formatter<'_>) -> std::fmt::Result {
+        write!(f, "rand shim error")
+    }
+}
+
+impl std::error::Error for Error {}
+
+impl<'a, R: RngCore + ?Sized> RngCore for &'a mut R {
+    fn next_u32(&mut self) -> u32 {
+        (**self).next_u32()
+    }
+    fn next_u64(&mut self) -> u64 {
+        (**self).next_u64()
+    }
+    fn fill_bytes(&mut self, dest: &mut [u8]) {
+        (**self).fill_bytes(dest)
+    }
+}
+
+impl<R: RngCore + ?Sized> RngCore for Box<R> {
+    fn next_u32(&mut self) -> u32 {
+        (**self).next_u32()
+    }
+    fn next_u64(&mut self) -> u64 {
+        (**self).next_u64()
+    }
+    fn fill_bytes(&mut self, dest: &mut [u8]) {
+        (**self).fill_bytes(dest)
+    }
 }
 
 /// The answer stream of one thread.
@@ -62,6 +105,13 @@ pub fn thread_rng() -> ThreadRng {
     ThreadRng
 }
 
+fn fill_bytes_from(next: &mut dyn FnMut() -> u64, dest: &mut [u8]) {
+    for chunk in dest.chunks_mut(8) {
+        let v = next().to_le_bytes();
+        chunk.copy_from_slice(&v[..chunk.len()]);
+    }
+}
+
 impl RngCore for ThreadRng {
     fn next_u64(&mut self) -> u64 {
         STATE.with(|st| {
@@ -75,13 +125,226 @@ impl RngCore for ThreadRng {
         self.next_u64() as u32
     }
     fn fill_bytes(&mut self, dest: &mut [u8]) {
-        for chunk in dest.chunks_mut(8) {
-            let v = self.next_u64().to_le_bytes();
-            chunk.copy_from_slice(&v[..chunk.len()]);
+        let mut f = || self.next_u64();
+        fill_bytes_from(&mut f, dest)
+    }
+}
+
+// ---------------------------------------------------------------------------------------
+// Seedable generators: deterministic functions of the seed
+
+pub trait SeedableRng: Sized {
+    type Seed: Sized + Default + AsMut<[u8]>;
+    fn from_seed(seed: Self::Seed) -> Self;
+    fn seed_from_u64(state: u64) -> Self {
+        let mut seed = Self::Seed::default();
+        let mut x = state;
+        for b in seed.as_mut().iter_mut() {
+            x = mix(x.wrapping_add(0x9e3779b97f4a7c15));
+            *b = x as u8;
+        }
+        Self::from_seed(seed)
+    }
+    fn from_rng<R: RngCore>(mut rng: R) -> Result<Self, Error> {
+        let mut seed = Self::Seed::default();
+        rng.fill_bytes(seed.as_mut());
+        Ok(Self::from_seed(seed))
+    }
+    fn from_entropy() -> Self {
+        Self::from_rng(thread_rng()).unwrap()
+    }
+}
+
+macro_rules! seedable {
+    ($name:ident) => {
+        #[derive(Clone, Debug, PartialEq, Eq)]
+        pub struct $name {
+            key: u64,
+            ctr: u64,
+        }
+        impl SeedableRng for $name {
+            type Seed = [u8; 32];
+            fn from_seed(seed: [u8; 32]) -> Self {
+                let mut key = 0x243f6a8885a308d3u64;
+                for c in seed.chunks(8) {
+                    let mut b = [0u8; 8];
+                    b.copy_from_slice(c);
+                    key = mix(key ^ u64::from_le_bytes(b)).wrapping_add(0x9e3779b97f4a7c15);
+                }
+                $name { key, ctr: 0 }
+            }
+        }
+        impl RngCore for $name {
+            fn next_u64(&mut self) -> u64 {
+                self.ctr += 1;
+                mix(self.key.wrapping_add(self.ctr.wrapping_mul(0x9e3779b97f4a7c15)))
+            }
+            fn next_u32(&mut self) -> u32 {
+                self.next_u64() as u32
+            }
+            fn fill_bytes(&mut self, dest: &mut [u8]) {
+                let mut f = || self.next_u64();
+                fill_bytes_from(&mut f, dest)
+            }
+        }
+    };
+}
+
+pub mod rngs {
+    use super::*;
+    pub use super::ThreadRng;
+    seedable!(StdRng);
+    seedable!(SmallRng);
+    pub mod mock {
+        /// `StepRng` of rand: an arithmetic sequence
+        #[derive(Clone, Debug)]
+        pub struct StepRng {
+            v: u64,
+            a: u64,
+        }
+        impl StepRng {
+            pub fn new(initial: u64, increment: u64) -> Self {
+                StepRng { v: initial, a: increment }
+            }
+        }
+        impl super::RngCore for StepRng {
+            fn next_u64(&mut self) -> u64 {
+                let r = self.v;
+                self.v = self.v.wrapping_add(self.a);
+                r
+            }
+            fn next_u32(&mut self) -> u32 {
+                self.next_u64() as u32
+            }
+            fn fill_bytes(&mut self, dest: &mut [u8]) {
+                let mut f = || self.next_u64();
+                super::fill_bytes_from(&mut f, dest)
+            }
         }
     }
 }
 
-pub mod rngs {
-    pub use super::ThreadRng;
+// ---------------------------------------------------------------------------------------
+// Rng: gen / gen_bool / gen_range / fill
+
+pub trait Standard: Sized {
+    fn generate<R: RngCore + ?Sized>(rng: &mut R) -> Self;
+}
+
+macro_rules! std_int {
+    ($($t:ty),*) => {$(
+        impl Standard for $t {
+            fn generate<R: RngCore + ?Sized>(rng: &mut R) -> Self {
+                rng.next_u64() as $t
+            }
+        }
+    )*};
+}
+std_int!(u8, u16, u32, u64, usize, i8, i16, i32, i64, isize);
+
+impl Standard for u128 {
+    fn generate<R: RngCore + ?Sized>(rng: &mut R) -> Self {
+        (rng.next_u64() as u128) | ((rng.next_u64() as u128) << 64)
+    }
+}
+
+impl Standard for bool {
+    fn generate<R: RngCore + ?Sized>(rng: &mut R) -> Self {
+        // rand: the most significant bit of a u32
+        (rng.next_u32() as i32) < 0
+    }
+}
+
+impl<T: Standard, const N: usize> Standard for [T; N] {
+    fn generate<R: RngCore + ?Sized>(rng: &mut R) -> Self {
+        std::array::from_fn(|_| T::generate(rng))
+    }
+}
+
+pub trait Fill {
+    fn fill_from<R: RngCore + ?Sized>(&mut self, rng: &mut R);
+}
+
+impl Fill for [u8] {
+    fn fill_from<R: RngCore + ?Sized>(&mut self, rng: &mut R) {
+        rng.fill_bytes(self)
+    }
+}
+
+macro_rules! fill_int {
+    ($($t:ty),*) => {$(
+        impl Fill for [$t] {
+            fn fill_from<R: RngCore + ?Sized>(&mut self, rng: &mut R) {
+                for x in self.iter_mut() {
+                    *x = <$t as Standard>::generate(rng);
+                }
+            }
+        }
+    )*};
+}
+fill_int!(u16, u32, u64, usize, u128, i8, i16, i32, i64, isize);
+
+impl<T, const N: usize> Fill for [T; N]
+where
+    [T]: Fill,
+{
+    fn fill_from<R: RngCore + ?Sized>(&mut self, rng: &mut R) {
+        self[..].fill_from(rng)
+    }
+}
+
+pub trait SampleRange<T> {
+    fn sample_from<R: RngCore + ?Sized>(self, rng: &mut R) -> T;
+}
+
+macro_rules! range_int {
+    ($($t:ty),*) => {$(
+        impl SampleRange<$t> for std::ops::Range<$t> {
+            fn sample_from<R: RngCore + ?Sized>(self, rng: &mut R) -> $t {
+                let span = (self.end as u128).wrapping_sub(self.start as u128) as u64;
+                assert!(span != 0, "empty range");
+                (self.start as u128 + (rng.next_u64() % span) as u128) as $t
+            }
+        }
+        impl SampleRange<$t> for std::ops::RangeInclusive<$t> {
+            fn sample_from<R: RngCore + ?Sized>(self, rng: &mut R) -> $t {
+                let span = (*self.end() as u128).wrapping_sub(*self.start() as u128).wrapping_add(1);
+                if span == 0 || span > u64::MAX as u128 {
+                    return rng.next_u64() as $t;
+                }
+                (*self.start() as u128 + (rng.next_u64() as u128 % span)) as $t
+            }
+        }
+    )*};
+}
+range_int!(u8, u16, u32, u64, usize);
+
+pub trait Rng: RngCore {
+    fn gen<T: Standard>(&mut self) -> T {
+        T::generate(self)
+    }
+    fn gen_bool(&mut self, p: f64) -> bool {
+        ((self.next_u64() >> 11) as f64) / ((1u64 << 53) as f64) < p
+    }
+    fn gen_range<T, S: SampleRange<T>>(&mut self, range: S) -> T {
+        range.sample_from(self)
+    }
+    fn fill<T: Fill + ?Sized>(&mut self, dest: &mut T) {
+        dest.fill_from(self)
+    }
+    fn try_fill<T: Fill + ?Sized>(&mut self, dest: &mut T) -> Result<(), Error> {
+        dest.fill_from(self);
+        Ok(())
+    }
+}
+
+impl<R: RngCore + ?Sized> Rng for R {}
+
+pub fn random<T: Standard>() -> T {
+    T::generate(&mut thread_rng())
+}
+
+pub mod prelude {
+    pub use super::rngs::{SmallRng, StdRng, ThreadRng};
+    pub use super::{random, thread_rng, Rng, RngCore, SeedableRng};
 }
